@@ -204,6 +204,12 @@ package config
 //@   returns#noothers called("github.com/knadh/koanf/providers/env.ProviderWithValue") == 0 && called("github.com/knadh/koanf/providers/env.Provider") == 0
 //@        && called("github.com/knadh/koanf/providers/file.Provider") == 0 && called("github.com/knadh/koanf/providers/posflag.Provider") == 0
 
+// ---- C09: environment values never crash the loader ---------------------------------------------
+// The MOCKERY_* value callback must not panic on any value (strconv.ParseBool accepts "true" and "false").
+//@ axiom parsebool_true: second(strconv.ParseBool("true")) == nil && second(strconv.ParseBool("false")) == nil
+//@ closure NewRootConfig#0 props=C09
+//@   ensures#key result0 == strings.Replace(strings.ToLower(strings.TrimPrefix(key, "MOCKERY_")), "_", "-", -1)
+
 // ---- C11: templated config values -----------------------------------------------------------
 // Package initialisation: ErrInfiniteLoop = fmt.Errorf(...) is non-nil and never reassigned (assumed).
 //@ axiom errinfiniteloop_nonnil: ErrInfiniteLoop != nil
